@@ -105,6 +105,7 @@ func MatchRep() []*wire.N {
 		OxmByName("NXM_NX_CT_LABEL", true, 9),  // 36
 		OxmByName("OXM_OF_PBB_ISID", false, 10), // 7
 		OxmByName("NXM_NX_REG0", true, 11),     // 12
+		OxmExperimenter(42, false, 12),         // 10, experimenter class
 	}
 }
 
@@ -126,6 +127,7 @@ func AllMatchFields() []*wire.N {
 			out = append(out, Oxm(in, true, int(in.Field)+2, 0))
 		}
 	}
+	out = append(out, OxmExperimenter(42, false, 1), OxmExperimenter(42, true, 2), OxmExperimenter(43, false, 3))
 	return out
 }
 
